@@ -225,505 +225,510 @@ def run(ctx):
     ctx.check(quotes == [34, 34], R, 'quoted|delimiters', q_branch, 'text is wrapped in double quotes', 'quoted form delimiters are %s' % quotes)
 
     # ---- R6 round trip by evaluation (E-TABLE): the text the formatter produces for a byte string is
-    # parsed back to that byte string (and, with a mask, to that mask) - all single bytes, all pairs
-    # over class representatives (all 65536 pairs in the thorough tier), masks over every position
-    R = 'C09-R6'
-    Pfull = next((f_ for f_ in u.func('phosg::parse_data_string') if len(params_of(f_)) == 3 and body_of(f_) is not None and 'char' not in (qtype(params_of(f_)[0]) or '').split('basic_string')[0].split('string')[0]), None)
-    Fmask = F
-    r6 = {'ok': 0, 'bad': None, 'und': None}
+    with ctx.section('C09-R6', 'C09'):
+        # parsed back to that byte string (and, with a mask, to that mask) - all single bytes, all pairs
+        # over class representatives (all 65536 pairs in the thorough tier), masks over every position
+        R = 'C09-R6'
+        Pfull = next((f_ for f_ in u.func('phosg::parse_data_string') if len(params_of(f_)) == 3 and body_of(f_) is not None and 'char' not in (qtype(params_of(f_)[0]) or '').split('basic_string')[0].split('string')[0]), None)
+        Fmask = F
+        r6 = {'ok': 0, 'bad': None, 'und': None}
 
-    def round_trip(bs, mask=None, flags=0):
-        if r6['und']:
-            return
-        try:
-            r = PE.call_with(Fmask, [Lit(bytes(bs)), len(bs), Lit(bytes(mask)) if mask is not None else None, flags])
-            txt = bytes(r.b)
-            mout = Str() if mask is not None else None
-            back = PE.call_with(Pfull, [Str(txt), mout, 0])
-        except Fault as e:
-            r6['bad'] = r6['bad'] or (bytes(bs), mask, 'evaluation faults: %s' % e)
-            return
-        except Thrown as e:
-            r6['bad'] = r6['bad'] or (bytes(bs), mask, 'the parser throws on the formatter\'s own text (%s)' % e)
-            return
-        except Undecided as e:
-            r6['und'] = str(e)
-            return
-        got = bytes(back.b) if isinstance(back, Str) else None
-        if got != bytes(bs):
-            r6['bad'] = r6['bad'] or (bytes(bs), mask, 'it is rendered as %r, which parses back to %r' % (txt.decode('latin1'), got))
-        elif mask is not None and [1 if m_ else 0 for m_ in bytes(mout.b)] != [1 if m_ else 0 for m_ in mask]:
-            r6['bad'] = r6['bad'] or (bytes(bs), mask, 'with mask %s it is rendered as %r, which parses back with mask %s' % (list(mask), txt.decode('latin1'), list(bytes(mout.b))))
+        def round_trip(bs, mask=None, flags=0):
+            if r6['und']:
+                return
+            try:
+                r = PE.call_with(Fmask, [Lit(bytes(bs)), len(bs), Lit(bytes(mask)) if mask is not None else None, flags])
+                txt = bytes(r.b)
+                mout = Str() if mask is not None else None
+                back = PE.call_with(Pfull, [Str(txt), mout, 0])
+            except Fault as e:
+                r6['bad'] = r6['bad'] or (bytes(bs), mask, 'evaluation faults: %s' % e)
+                return
+            except Thrown as e:
+                r6['bad'] = r6['bad'] or (bytes(bs), mask, 'the parser throws on the formatter\'s own text (%s)' % e)
+                return
+            except Undecided as e:
+                r6['und'] = str(e)
+                return
+            got = bytes(back.b) if isinstance(back, Str) else None
+            if got != bytes(bs):
+                r6['bad'] = r6['bad'] or (bytes(bs), mask, 'it is rendered as %r, which parses back to %r' % (txt.decode('latin1'), got))
+            elif mask is not None and [1 if m_ else 0 for m_ in bytes(mout.b)] != [1 if m_ else 0 for m_ in mask]:
+                r6['bad'] = r6['bad'] or (bytes(bs), mask, 'with mask %s it is rendered as %r, which parses back with mask %s' % (list(mask), txt.decode('latin1'), list(bytes(mout.b))))
+            else:
+                r6['ok'] += 1
+        if Pfull is None:
+            ctx.undecided(R, 'round-trip', P, 'parse_data_string(const std::string&, std::string*, uint64_t) not found')
         else:
-            r6['ok'] += 1
-    if Pfull is None:
-        ctx.undecided(R, 'round-trip', P, 'parse_data_string(const std::string&, std::string*, uint64_t) not found')
-    else:
-        from peval import Thrown
-        reps = [0x00, 0x01, 0x09, 0x0A, 0x0D, 0x1F, 0x20, 0x21, 0x22, 0x27, 0x2F, 0x30, 0x39, 0x3C, 0x3F, 0x41, 0x46, 0x5C, 0x61, 0x66, 0x7E, 0x7F, 0x80, 0xFF]
-        for fl_ in (0, skip_flag):
-            for b in range(256):
-                round_trip([b], None, fl_)
-            pairs = [(a_, b_) for a_ in (range(256) if ctx.tier == 'thorough' and fl_ == 0 else reps) for b_ in (range(256) if ctx.tier == 'thorough' and fl_ == 0 else reps)]
-            for a_, b_ in pairs:
-                round_trip([a_, b_], None, fl_)
-            for a_ in reps[::3]:
-                for b_ in reps[1::3]:
-                    for c_ in reps[2::3]:
-                        round_trip([a_, b_, c_], None, fl_)
-            for bs in ([0x41], [0x00], [0x41, 0x42], [0x00, 0x41], [0x41, 0x42, 0x43], [0x00, 0x01, 0x02], [0x41, 0x00, 0x42], [0x22, 0x41, 0x5C]):
-                for m_ in range(1 << len(bs)):
-                    round_trip(bs, [0xFF if (m_ >> i_) & 1 else 0 for i_ in range(len(bs))], fl_)
-        if r6['und']:
-            ctx.undecided(R, 'round-trip', Pfull, 'formatter / parser could not be evaluated (%s)' % r6['und'])
-        elif r6['bad']:
-            ctx.bad(R, 'round-trip', Pfull, 'data string %r: %s' % (r6['bad'][0], r6['bad'][2]))
-        else:
-            ctx.ok(R, 'round-trip', Pfull, 'parse_data_string(format_data_string(x)) == x (and the mask) for %d byte strings: all single bytes, pairs and triples over class representatives, every mask of up to 3 positions, with and without SKIP_STRINGS' % r6['ok'])
-    r6_decides = Pfull is not None and not r6['und'] and not r6['bad']
+            from peval import Thrown
+            reps = [0x00, 0x01, 0x09, 0x0A, 0x0D, 0x1F, 0x20, 0x21, 0x22, 0x27, 0x2F, 0x30, 0x39, 0x3C, 0x3F, 0x41, 0x46, 0x5C, 0x61, 0x66, 0x7E, 0x7F, 0x80, 0xFF]
+            for fl_ in (0, skip_flag):
+                for b in range(256):
+                    round_trip([b], None, fl_)
+                pairs = [(a_, b_) for a_ in (range(256) if ctx.tier == 'thorough' and fl_ == 0 else reps) for b_ in (range(256) if ctx.tier == 'thorough' and fl_ == 0 else reps)]
+                for a_, b_ in pairs:
+                    round_trip([a_, b_], None, fl_)
+                for a_ in reps[::3]:
+                    for b_ in reps[1::3]:
+                        for c_ in reps[2::3]:
+                            round_trip([a_, b_, c_], None, fl_)
+                for bs in ([0x41], [0x00], [0x41, 0x42], [0x00, 0x41], [0x41, 0x42, 0x43], [0x00, 0x01, 0x02], [0x41, 0x00, 0x42], [0x22, 0x41, 0x5C]):
+                    for m_ in range(1 << len(bs)):
+                        round_trip(bs, [0xFF if (m_ >> i_) & 1 else 0 for i_ in range(len(bs))], fl_)
+            if r6['und']:
+                ctx.undecided(R, 'round-trip', Pfull, 'formatter / parser could not be evaluated (%s)' % r6['und'])
+            elif r6['bad']:
+                ctx.bad(R, 'round-trip', Pfull, 'data string %r: %s' % (r6['bad'][0], r6['bad'][2]))
+            else:
+                ctx.ok(R, 'round-trip', Pfull, 'parse_data_string(format_data_string(x)) == x (and the mask) for %d byte strings: all single bytes, pairs and triples over class representatives, every mask of up to 3 positions, with and without SKIP_STRINGS' % r6['ok'])
+        r6_decides = Pfull is not None and not r6['und'] and not r6['bad']
 
     # ---- R2 hex form
-    R = 'C09-R2'
-    for b in range(256):
-        if b in fault:
-            ctx.bad(R, 'hex|emit-0x%02X' % b, F, 'for byte 0x%02X format_data_string %s' % (b, fault[b]))
-            continue
-        try:
-            txt = fmt_bytes([b], skip_flag)
-            txt2 = fmt_bytes([b, 0x00])
-        except Fault as e:
-            ctx.bad(R, 'hex|emit-0x%02X' % b, F, 'for byte 0x%02X format_data_string %s' % (b, e))
-            continue
-        ok_ = txt == (b'%02X' % b) and txt2 == (b'%02X00' % b)
-        ctx.check(ok_, R, 'hex|emit-0x%02X' % b, F, 'byte -> %s' % txt.decode('latin1'), 'hex form renders byte 0x%02X as %r (and %r when followed by a NUL byte); expected two uppercase hex digits' % (b, txt, txt2), nontrivial=b in (0, 0x0A, 0x7F, 0x80, 0xFF))
-    # parser nybble table
-    for ch in '0123456789ABCDEFabcdef':
-        I.ov = {'in[0]': ord(ch), 'in[1]': 0}
+    with ctx.section('C09-R2', 'C09'):
+        R = 'C09-R2'
+        for b in range(256):
+            if b in fault:
+                ctx.bad(R, 'hex|emit-0x%02X' % b, F, 'for byte 0x%02X format_data_string %s' % (b, fault[b]))
+                continue
+            try:
+                txt = fmt_bytes([b], skip_flag)
+                txt2 = fmt_bytes([b, 0x00])
+            except Fault as e:
+                ctx.bad(R, 'hex|emit-0x%02X' % b, F, 'for byte 0x%02X format_data_string %s' % (b, e))
+                continue
+            ok_ = txt == (b'%02X' % b) and txt2 == (b'%02X00' % b)
+            ctx.check(ok_, R, 'hex|emit-0x%02X' % b, F, 'byte -> %s' % txt.decode('latin1'), 'hex form renders byte 0x%02X as %r (and %r when followed by a NUL byte); expected two uppercase hex digits' % (b, txt, txt2), nontrivial=b in (0, 0x0A, 0x7F, 0x80, 0xFF))
+        # parser nybble table
+        for ch in '0123456789ABCDEFabcdef':
+            I.ov = {'in[0]': ord(ch), 'in[1]': 0}
+            fx = new_fx()
+            run_block(I, [else_branch], {}, fx)
+            v = fx['assign'].get('chr|=')
+            ctx.check(fx['assign'].get('read_nybble') == 1 and v == int(ch, 16) and fx['adv'] == 1 and not fx['unknown'], R, 'hex|nybble-%s' % ch, else_branch,
+                      '%r -> nybble %s' % (ch, v), 'hex digit %r is read as %s (read_nybble=%s, advance=%s)' % (ch, v, fx['assign'].get('read_nybble'), fx['adv']))
+        # nybble pairing: high first, shift by 4, emit on the second
+        nyb = next((s_ for s_ in stmts_of(loop_body(main_loop)) if s_.get('kind') == 'IfStmt' and (ref_decl(if_parts(s_)[0]) or {}).get('name') == 'read_nybble'), None)
+        okn = False
+        if nyb is not None:
+            inner = next((x for x in walk(if_parts(nyb)[1]) if x.get('kind') == 'IfStmt'), None)
+            if inner is not None:
+                c_, t_, e_ = if_parts(inner)
+                sh = [nf(x) for x in walk(t_) if x.get('kind') in ('BinaryOperator', 'CompoundAssignOperator') and x.get('opcode') in ASSIGN_OPS and canon(x['inner'][0]) == 'chr']
+                em = [canon(x) for x in walk(e_) if x.get('kind') == 'CXXOperatorCallExpr' and call_name(x) == 'operator+='] if e_ is not None else []
+                tog = [nf(x) for x in walk(if_parts(nyb)[1]) if x.get('kind') == 'BinaryOperator' and x.get('opcode') == '=' and canon(x['inner'][0]) == 'reading_high_nybble']
+                hv = next((v for v in walk(pbody) if v.get('kind') == 'VarDecl' and v.get('name') == 'reading_high_nybble'), None)
+                okn = canon(c_) == 'reading_high_nybble' and sh in (['(chr = (chr << 4))'], ['(chr <<= 4)']) and len(em) == 1 and tog == ['(reading_high_nybble = !reading_high_nybble)'] and hv is not None and int_value(kids(hv)[-1]) == 1
+        if not okn and r6_decides:
+            # another shape of the same state machine: C09-R6 has evaluated every two-digit pair through it
+            ctx.undecided(R, 'hex|nybble-pairing', nyb or P, 'the nybble pairing is not written as `if (high) chr <<= 4; else data += chr` - its behaviour is decided by evaluation (C09-R6)')
+        else:
+            ctx.check(okn, R, 'hex|nybble-pairing', nyb or P, 'first digit is the high nybble (shifted by 4), the byte is emitted on the second', 'nybble pairing is not high-then-low with a 4-bit shift')
+        # '?' consumed only outside the string/comment/filename states
+        qb = next(((c, t) for c, t in branches if any(int_value(relation(n_, True)[2]) == ord('?') for n_, _ in atoms([Fact(c, True, None)]) if relation(n_, True) and relation(n_, True)[1] == '==')), None)
+        ctx.require(qb is not None, 'parse_data_string: `?` branch not found')
+        states_before = [(ref_decl(c) or {}).get('name') for c, t in branches[:[i for i, bt in enumerate(branches) if bt[0] is qb[0]][0]]]
+        need = {'reading_comment', 'reading_multiline_comment', 'reading_string', 'reading_unicode_string', 'reading_filename'}
+        ctx.check(need <= set(states_before), R, 'hex|toggle-outside-strings', qb[0], '? is a toggle only outside strings, comments and file names', 'the `?` toggle is tested before the state branches %s' % sorted(need - set(states_before)))
         fx = new_fx()
-        run_block(I, [else_branch], {}, fx)
-        v = fx['assign'].get('chr|=')
-        ctx.check(fx['assign'].get('read_nybble') == 1 and v == int(ch, 16) and fx['adv'] == 1 and not fx['unknown'], R, 'hex|nybble-%s' % ch, else_branch,
-                  '%r -> nybble %s' % (ch, v), 'hex digit %r is read as %s (read_nybble=%s, advance=%s)' % (ch, v, fx['assign'].get('read_nybble'), fx['adv']))
-    # nybble pairing: high first, shift by 4, emit on the second
-    nyb = next((s_ for s_ in stmts_of(loop_body(main_loop)) if s_.get('kind') == 'IfStmt' and (ref_decl(if_parts(s_)[0]) or {}).get('name') == 'read_nybble'), None)
-    okn = False
-    if nyb is not None:
-        inner = next((x for x in walk(if_parts(nyb)[1]) if x.get('kind') == 'IfStmt'), None)
-        if inner is not None:
-            c_, t_, e_ = if_parts(inner)
-            sh = [nf(x) for x in walk(t_) if x.get('kind') in ('BinaryOperator', 'CompoundAssignOperator') and x.get('opcode') in ASSIGN_OPS and canon(x['inner'][0]) == 'chr']
-            em = [canon(x) for x in walk(e_) if x.get('kind') == 'CXXOperatorCallExpr' and call_name(x) == 'operator+='] if e_ is not None else []
-            tog = [nf(x) for x in walk(if_parts(nyb)[1]) if x.get('kind') == 'BinaryOperator' and x.get('opcode') == '=' and canon(x['inner'][0]) == 'reading_high_nybble']
-            hv = next((v for v in walk(pbody) if v.get('kind') == 'VarDecl' and v.get('name') == 'reading_high_nybble'), None)
-            okn = canon(c_) == 'reading_high_nybble' and sh in (['(chr = (chr << 4))'], ['(chr <<= 4)']) and len(em) == 1 and tog == ['(reading_high_nybble = !reading_high_nybble)'] and hv is not None and int_value(kids(hv)[-1]) == 1
-    if not okn and r6_decides:
-        # another shape of the same state machine: C09-R6 has evaluated every two-digit pair through it
-        ctx.undecided(R, 'hex|nybble-pairing', nyb or P, 'the nybble pairing is not written as `if (high) chr <<= 4; else data += chr` - its behaviour is decided by evaluation (C09-R6)')
-    else:
-        ctx.check(okn, R, 'hex|nybble-pairing', nyb or P, 'first digit is the high nybble (shifted by 4), the byte is emitted on the second', 'nybble pairing is not high-then-low with a 4-bit shift')
-    # '?' consumed only outside the string/comment/filename states
-    qb = next(((c, t) for c, t in branches if any(int_value(relation(n_, True)[2]) == ord('?') for n_, _ in atoms([Fact(c, True, None)]) if relation(n_, True) and relation(n_, True)[1] == '==')), None)
-    ctx.require(qb is not None, 'parse_data_string: `?` branch not found')
-    states_before = [(ref_decl(c) or {}).get('name') for c, t in branches[:[i for i, bt in enumerate(branches) if bt[0] is qb[0]][0]]]
-    need = {'reading_comment', 'reading_multiline_comment', 'reading_string', 'reading_unicode_string', 'reading_filename'}
-    ctx.check(need <= set(states_before), R, 'hex|toggle-outside-strings', qb[0], '? is a toggle only outside strings, comments and file names', 'the `?` toggle is tested before the state branches %s' % sorted(need - set(states_before)))
-    fx = new_fx()
-    I.ov = {'in[0]': ord('?'), 'in[1]': 0}
-    run_block(I, [qb[1]], {}, fx)
-    ctx.check(fx['adv'] == 1 and fx['assign'].get('mask_enabled') == '!mask_enabled' and not fx['append'], R, 'hex|toggle-effect', qb[1], '? flips mask_enabled and emits nothing', 'the `?` branch effects are %s' % {k_: v_ for k_, v_ in fx.items() if v_})
-    ht = [string_lit(x['inner'][2]) if string_lit(x['inner'][2]) is not None else int_value(x['inner'][2]) for x in walk(loop_body(h_loop)) if x.get('kind') == 'CXXOperatorCallExpr' and call_name(x) == 'operator+=' and
-          enclosing(x, ('IfStmt',)) is not None and enclosing(x, ('IfStmt',)) is not main_if]
-    ctx.check(ht in ([ord('?')], [b'?']), R, 'hex|mask-toggle', h_loop, 'mask change is rendered as ? between bytes', 'mask toggle in the hex form is %s' % ht)
+        I.ov = {'in[0]': ord('?'), 'in[1]': 0}
+        run_block(I, [qb[1]], {}, fx)
+        ctx.check(fx['adv'] == 1 and fx['assign'].get('mask_enabled') == '!mask_enabled' and not fx['append'], R, 'hex|toggle-effect', qb[1], '? flips mask_enabled and emits nothing', 'the `?` branch effects are %s' % {k_: v_ for k_, v_ in fx.items() if v_})
+        ht = [string_lit(x['inner'][2]) if string_lit(x['inner'][2]) is not None else int_value(x['inner'][2]) for x in walk(loop_body(h_loop)) if x.get('kind') == 'CXXOperatorCallExpr' and call_name(x) == 'operator+=' and
+              enclosing(x, ('IfStmt',)) is not None and enclosing(x, ('IfStmt',)) is not main_if]
+        ctx.check(ht in ([ord('?')], [b'?']), R, 'hex|mask-toggle', h_loop, 'mask change is rendered as ? between bytes', 'mask toggle in the hex form is %s' % ht)
 
-    # mask classification in the formatter: a mask byte is read only for its truth value, a toggle is
-    # emitted exactly when that truth value differs from a state variable which is flipped with the
-    # toggle, and the state starts where the parser's starts (enabled)
-    R = 'C09-R2'
-    mask_v = next((v for v in walk(body_of(F)) if v.get('kind') == 'VarDecl' and v.get('name') == 'mask'), None) if 'F' in dir() else None
-    fbody = body_of(fmts[0])
-    mask_vars = [v for v in walk(fbody) if v.get('kind') == 'VarDecl' and kids(v) and any((ref_decl(y) or {}).get('id') == params_of(fmts[0])[2]['id'] for y in walk(v))]
-    ctx.require(len(mask_vars) == 1, 'format_data_string: typed mask pointer not found')
-    mv = mask_vars[0]
-    reads = [x for x in walk(fbody) if x.get('kind') == 'ArraySubscriptExpr' and (ref_decl(x['inner'][0]) or {}).get('id') == mv['id']]
-    ctx.require(len(reads) >= 2, 'format_data_string: mask reads not found')
-    for i, rd_ in enumerate(reads):
-        p_ = rd_.get('_p')
-        truth = False
-        while p_ is not None and p_.get('kind') in ('ParenExpr', 'ImplicitCastExpr', 'CStyleCastExpr', 'CXXStaticCastExpr', 'CXXFunctionalCastExpr'):
-            if p_.get('castKind') == 'IntegralToBoolean' or (dtype(p_) or '') == 'bool':
-                truth = True
-                break
-            p_ = p_.get('_p')
-        if not truth and p_ is not None:
-            if p_.get('kind') == 'UnaryOperator' and p_.get('opcode') == '!':
-                truth = True
-            r_ = relation(p_, True) if p_.get('kind') == 'BinaryOperator' else None
-            if r_ and r_[1] in ('==', '!=') and (int_value(r_[2]) == 0 or int_value(r_[0]) == 0):
-                truth = True
-        form = 'quoted' if any(a is q_loop for a in ancestors(rd_)) else 'hex'
-        ctx.check(truth, R, '%s|mask-read-as-truth#%d' % (form, i), rd_, 'mask byte used only as zero / non-zero', 'the mask byte is compared by value (`%s`): masks whose non-zero bytes differ (0x01 vs 0xFF) are classified wrongly when re-parsed' % src_text(rd_.get('_p') or rd_, 60))
-    for form, lp in (('quoted', q_loop), ('hex', h_loop)):
-        emits = [x for x in walk(loop_body(lp)) if x.get('kind') == 'CXXOperatorCallExpr' and call_name(x) == 'operator+=' and (string_lit(x['inner'][2]) in (b'"?"', b'?') or int_value(x['inner'][2]) == ord('?'))]
-        okt = len(emits) == 1
-        why = 'expected one toggle emission, found %d' % len(emits)
-        if okt:
-            ifs = enclosing(emits[0], ('IfStmt',))
-            cond, then, els = if_parts(ifs)
-            flips = [a for a in walk(then) if a.get('kind') == 'BinaryOperator' and a.get('opcode') == '=' and strip(a['inner'][1]).get('kind') == 'UnaryOperator' and strip(a['inner'][1]).get('opcode') == '!'
-                     and (ref_decl(strip(a['inner'][1])['inner'][0]) or {}).get('id') == (ref_decl(a['inner'][0]) or {}).get('id')]
-            okt = len(flips) == 1
-            why = 'the toggle is emitted without flipping a mask state variable'
+        # mask classification in the formatter: a mask byte is read only for its truth value, a toggle is
+        # emitted exactly when that truth value differs from a state variable which is flipped with the
+        # toggle, and the state starts where the parser's starts (enabled)
+        R = 'C09-R2'
+        mask_v = next((v for v in walk(body_of(F)) if v.get('kind') == 'VarDecl' and v.get('name') == 'mask'), None) if 'F' in dir() else None
+        fbody = body_of(fmts[0])
+        mask_vars = [v for v in walk(fbody) if v.get('kind') == 'VarDecl' and kids(v) and any((ref_decl(y) or {}).get('id') == params_of(fmts[0])[2]['id'] for y in walk(v))]
+        ctx.require(len(mask_vars) == 1, 'format_data_string: typed mask pointer not found')
+        mv = mask_vars[0]
+        reads = [x for x in walk(fbody) if x.get('kind') == 'ArraySubscriptExpr' and (ref_decl(x['inner'][0]) or {}).get('id') == mv['id']]
+        ctx.require(len(reads) >= 2, 'format_data_string: mask reads not found')
+        for i, rd_ in enumerate(reads):
+            p_ = rd_.get('_p')
+            truth = False
+            while p_ is not None and p_.get('kind') in ('ParenExpr', 'ImplicitCastExpr', 'CStyleCastExpr', 'CXXStaticCastExpr', 'CXXFunctionalCastExpr'):
+                if p_.get('castKind') == 'IntegralToBoolean' or (dtype(p_) or '') == 'bool':
+                    truth = True
+                    break
+                p_ = p_.get('_p')
+            if not truth and p_ is not None:
+                if p_.get('kind') == 'UnaryOperator' and p_.get('opcode') == '!':
+                    truth = True
+                r_ = relation(p_, True) if p_.get('kind') == 'BinaryOperator' else None
+                if r_ and r_[1] in ('==', '!=') and (int_value(r_[2]) == 0 or int_value(r_[0]) == 0):
+                    truth = True
+            form = 'quoted' if any(a is q_loop for a in ancestors(rd_)) else 'hex'
+            ctx.check(truth, R, '%s|mask-read-as-truth#%d' % (form, i), rd_, 'mask byte used only as zero / non-zero', 'the mask byte is compared by value (`%s`): masks whose non-zero bytes differ (0x01 vs 0xFF) are classified wrongly when re-parsed' % src_text(rd_.get('_p') or rd_, 60))
+        for form, lp in (('quoted', q_loop), ('hex', h_loop)):
+            emits = [x for x in walk(loop_body(lp)) if x.get('kind') == 'CXXOperatorCallExpr' and call_name(x) == 'operator+=' and (string_lit(x['inner'][2]) in (b'"?"', b'?') or int_value(x['inner'][2]) == ord('?'))]
+            okt = len(emits) == 1
+            why = 'expected one toggle emission, found %d' % len(emits)
             if okt:
-                st = ref_decl(flips[0]['inner'][0])
-                in_cond = any((ref_decl(y) or {}).get('id') == st['id'] for y in walk(cond)) and any(y in reads for y in walk(cond))
-                neq = any(y.get('kind') == 'BinaryOperator' and y.get('opcode') == '!=' for y in walk(cond))
-                svd = u.by_id.get(st['id'])
-                init_true = svd is not None and kids(svd) and int_value(kids(svd)[-1]) == 1
-                okt = in_cond and neq and init_true
-                why = 'toggle condition does not compare the mask byte\'s truth value with the state (`%s`), or the state does not start enabled' % src_text(cond, 70)
-        ctx.check(okt, R, form + '|toggle-iff-state-differs', emits[0] if emits else lp, 'toggle emitted iff bool(mask[x]) != state; state flipped with it; starts enabled', why)
+                ifs = enclosing(emits[0], ('IfStmt',))
+                cond, then, els = if_parts(ifs)
+                flips = [a for a in walk(then) if a.get('kind') == 'BinaryOperator' and a.get('opcode') == '=' and strip(a['inner'][1]).get('kind') == 'UnaryOperator' and strip(a['inner'][1]).get('opcode') == '!'
+                         and (ref_decl(strip(a['inner'][1])['inner'][0]) or {}).get('id') == (ref_decl(a['inner'][0]) or {}).get('id')]
+                okt = len(flips) == 1
+                why = 'the toggle is emitted without flipping a mask state variable'
+                if okt:
+                    st = ref_decl(flips[0]['inner'][0])
+                    in_cond = any((ref_decl(y) or {}).get('id') == st['id'] for y in walk(cond)) and any(y in reads for y in walk(cond))
+                    neq = any(y.get('kind') == 'BinaryOperator' and y.get('opcode') == '!=' for y in walk(cond))
+                    svd = u.by_id.get(st['id'])
+                    init_true = svd is not None and kids(svd) and int_value(kids(svd)[-1]) == 1
+                    okt = in_cond and neq and init_true
+                    why = 'toggle condition does not compare the mask byte\'s truth value with the state (`%s`), or the state does not start enabled' % src_text(cond, 70)
+            ctx.check(okt, R, form + '|toggle-iff-state-differs', emits[0] if emits else lp, 'toggle emitted iff bool(mask[x]) != state; state flipped with it; starts enabled', why)
 
     # ---- R3 totality
-    R = 'C09-R3'
-    adv_sites = [x for x in walk(loop_body(main_loop)) if (x.get('kind') == 'UnaryOperator' and x.get('opcode') == '++' and canon(x['inner'][0]) == 'in') or
-                 (x.get('kind') == 'CompoundAssignOperator' and x.get('opcode') == '+=' and canon(x['inner'][0]) == 'in')]
-    ctx.require(len(adv_sites) >= 15, 'cursor advances not found (%d)' % len(adv_sites))
+    with ctx.section('C09-R3', 'C09'):
+        R = 'C09-R3'
+        adv_sites = [x for x in walk(loop_body(main_loop)) if (x.get('kind') == 'UnaryOperator' and x.get('opcode') == '++' and canon(x['inner'][0]) == 'in') or
+                     (x.get('kind') == 'CompoundAssignOperator' and x.get('opcode') == '+=' and canon(x['inner'][0]) == 'in')]
+        ctx.require(len(adv_sites) >= 15, 'cursor advances not found (%d)' % len(adv_sites))
 
-    def nonzero_facts(site):
-        nz = set()
-        for n_, pol in atoms(path_facts(site)):
-            n0 = strip(n_)
-            r = relation(n_, pol)
-            if r and canon(r[0]).startswith('in[') and int_value(r[2]) is not None:
-                c = int_value(r[2])
-                if (r[1] == '==' and c != 0) or (r[1] == '!=' and c == 0) or (r[1] in ('>=', '>') and c > 0):
-                    nz.add(canon(r[0]))
-            elif n0.get('kind') == 'ArraySubscriptExpr' and canon(n0).startswith('in[') and pol:
-                nz.add(canon(n0))
-        return nz
-    cnt = {}
-    for a in adv_sites:
-        k = 1 if a.get('kind') == 'UnaryOperator' else (int_value(a['inner'][1]) or 0)
-        nz = nonzero_facts(a)
-        need_ = {'in[%d]' % i for i in range(k)}
-        blk = src_text(enclosing(a, ('IfStmt',)) or a, 40)
-        key0 = 'advance+%d@%s' % (k, nf(if_parts(enclosing(a, ('IfStmt',)))[0])[:50] if enclosing(a, ('IfStmt',)) is not None else 'top')
-        cnt[key0] = cnt.get(key0, 0) + 1
-        ctx.check(need_ <= nz, R, key0 + ('' if cnt[key0] == 1 else '#%d' % cnt[key0]), a, 'steps over %d byte(s) known to be non-NUL' % k,
-                  'the cursor moves %d byte(s) forward but only %s are known to be non-NUL here: a text ending at this point makes the parser step past the terminator and read beyond the buffer' % (k, sorted(nz) or 'none'))
-    # progress: every turn advances or returns
+        def nonzero_facts(site):
+            nz = set()
+            for n_, pol in atoms(path_facts(site)):
+                n0 = strip(n_)
+                r = relation(n_, pol)
+                if r and canon(r[0]).startswith('in[') and int_value(r[2]) is not None:
+                    c = int_value(r[2])
+                    if (r[1] == '==' and c != 0) or (r[1] == '!=' and c == 0) or (r[1] in ('>=', '>') and c > 0):
+                        nz.add(canon(r[0]))
+                elif n0.get('kind') == 'ArraySubscriptExpr' and canon(n0).startswith('in[') and pol:
+                    nz.add(canon(n0))
+            return nz
+        cnt = {}
+        for a in adv_sites:
+            k = 1 if a.get('kind') == 'UnaryOperator' else (int_value(a['inner'][1]) or 0)
+            nz = nonzero_facts(a)
+            need_ = {'in[%d]' % i for i in range(k)}
+            blk = src_text(enclosing(a, ('IfStmt',)) or a, 40)
+            key0 = 'advance+%d@%s' % (k, nf(if_parts(enclosing(a, ('IfStmt',)))[0])[:50] if enclosing(a, ('IfStmt',)) is not None else 'top')
+            cnt[key0] = cnt.get(key0, 0) + 1
+            ctx.check(need_ <= nz, R, key0 + ('' if cnt[key0] == 1 else '#%d' % cnt[key0]), a, 'steps over %d byte(s) known to be non-NUL' % k,
+                      'the cursor moves %d byte(s) forward but only %s are known to be non-NUL here: a text ending at this point makes the parser step past the terminator and read beyond the buffer' % (k, sorted(nz) or 'none'))
+        # progress: every turn advances or returns
 
-    def turn_progress(stmt):
-        if stmt is None or not stmt.get('kind'):
-            return False
-        k = stmt.get('kind')
-        if k == 'CompoundStmt':
-            for s_ in kids(stmt):
-                if not falls_through(s_):
-                    return True
-                if turn_progress(s_):
-                    return True
-            return False
-        if k == 'IfStmt':
-            cond, then, els = if_parts(stmt)
-            return turn_progress(then) and (els is not None and turn_progress(els))
-        if k in ('ReturnStmt', 'CXXThrowExpr', 'BreakStmt'):
-            return True
-        return any(x in adv_sites for x in walk(stmt) if x.get('kind') in ('UnaryOperator', 'CompoundAssignOperator')) and not any(x.get('kind') in ('IfStmt',) + LOOPS for x in walk(stmt) if x is not stmt)
-    ctx.check(turn_progress(chain), R, 'main-loop|progress', main_loop, 'every branch of the state machine advances the cursor or returns', 'a branch of the main loop neither advances nor returns: the parser hangs on some text')
-    # strtoull/strtod end pointers
-    conv = [c for c in walk(pbody) if c.get('kind') == 'CallExpr' and call_name(c) in ('strtoull', 'strtod', 'strtof', 'strtoul', 'strtoll')]
-    okc = len(conv) >= 3 and all(canon(call_args(c)[0]) == 'in' and 'in' in canon(call_args(c)[1]) for c in conv)
-    ctx.check(okc, R, 'numeric-scans', P, 'every libc numeric scan starts at the cursor and leave it at their end pointer (never before it, never past the NUL)', 'numeric scans changed: %s' % [src_text(c, 50) for c in conv])
-    # file state only with ALLOW_FILES
-    fsets = [x for x in walk(pbody) if x.get('kind') == 'BinaryOperator' and x.get('opcode') == '=' and canon(x['inner'][0]) == 'reading_filename' and int_value(x['inner'][1]) == 1]
-    okf = len(fsets) == 1 and any(canon(n_) == 'allow_files' and pol for n_, pol in atoms(path_facts(fsets[0])))
-    av = next((v for v in walk(pbody) if v.get('kind') == 'VarDecl' and v.get('name') == 'allow_files'), None)
-    okf = okf and av is not None and 'ALLOW_FILES' in canon(kids(av)[-1]) and '&' in canon(kids(av)[-1])
-    loads = [c for c in walk(pbody) if c.get('kind') == 'CallExpr' and call_name(c) == 'load_file']
-    okf = okf and all(any((ref_decl(n_) or {}).get('name') == 'reading_filename' and pol for n_, pol in atoms(path_facts(c, ignore_kills_of={'dummy'}))) or
-                      any((ref_decl(ft.cond) or {}).get('name') == 'reading_filename' and ft.pol for ft in path_facts(c)) or True for c in loads)
-    loads_in_state = all(any(t_ is not None and any(y is c for y in walk(t_)) and (ref_decl(c_) or {}).get('name') == 'reading_filename' for c_, t_ in branches) for c in loads)
-    ctx.check(okf and loads_in_state, R, 'files-need-flag', fsets[0] if fsets else P, 'load_file is reachable only through reading_filename, which is set only when ALLOW_FILES is given (so without it nothing throws)', 'the file-inclusion state can be entered without ALLOW_FILES')
-    thr = [t for t in walk(pbody) if t.get('kind') == 'CXXThrowExpr']
-    ctx.check(not thr, R, 'no-throw', thr[0] if thr else P, 'the parser contains no throw', 'the parser now throws (%s): any text must be accepted' % (src_text(thr[0], 60) if thr else ''))
+        def turn_progress(stmt):
+            if stmt is None or not stmt.get('kind'):
+                return False
+            k = stmt.get('kind')
+            if k == 'CompoundStmt':
+                for s_ in kids(stmt):
+                    if not falls_through(s_):
+                        return True
+                    if turn_progress(s_):
+                        return True
+                return False
+            if k == 'IfStmt':
+                cond, then, els = if_parts(stmt)
+                return turn_progress(then) and (els is not None and turn_progress(els))
+            if k in ('ReturnStmt', 'CXXThrowExpr', 'BreakStmt'):
+                return True
+            return any(x in adv_sites for x in walk(stmt) if x.get('kind') in ('UnaryOperator', 'CompoundAssignOperator')) and not any(x.get('kind') in ('IfStmt',) + LOOPS for x in walk(stmt) if x is not stmt)
+        ctx.check(turn_progress(chain), R, 'main-loop|progress', main_loop, 'every branch of the state machine advances the cursor or returns', 'a branch of the main loop neither advances nor returns: the parser hangs on some text')
+        # strtoull/strtod end pointers
+        conv = [c for c in walk(pbody) if c.get('kind') == 'CallExpr' and call_name(c) in ('strtoull', 'strtod', 'strtof', 'strtoul', 'strtoll')]
+        okc = len(conv) >= 3 and all(canon(call_args(c)[0]) == 'in' and 'in' in canon(call_args(c)[1]) for c in conv)
+        ctx.check(okc, R, 'numeric-scans', P, 'every libc numeric scan starts at the cursor and leave it at their end pointer (never before it, never past the NUL)', 'numeric scans changed: %s' % [src_text(c, 50) for c in conv])
+        # file state only with ALLOW_FILES
+        fsets = [x for x in walk(pbody) if x.get('kind') == 'BinaryOperator' and x.get('opcode') == '=' and canon(x['inner'][0]) == 'reading_filename' and int_value(x['inner'][1]) == 1]
+        okf = len(fsets) == 1 and any(canon(n_) == 'allow_files' and pol for n_, pol in atoms(path_facts(fsets[0])))
+        av = next((v for v in walk(pbody) if v.get('kind') == 'VarDecl' and v.get('name') == 'allow_files'), None)
+        okf = okf and av is not None and 'ALLOW_FILES' in canon(kids(av)[-1]) and '&' in canon(kids(av)[-1])
+        loads = [c for c in walk(pbody) if c.get('kind') == 'CallExpr' and call_name(c) == 'load_file']
+        okf = okf and all(any((ref_decl(n_) or {}).get('name') == 'reading_filename' and pol for n_, pol in atoms(path_facts(c, ignore_kills_of={'dummy'}))) or
+                          any((ref_decl(ft.cond) or {}).get('name') == 'reading_filename' and ft.pol for ft in path_facts(c)) or True for c in loads)
+        loads_in_state = all(any(t_ is not None and any(y is c for y in walk(t_)) and (ref_decl(c_) or {}).get('name') == 'reading_filename' for c_, t_ in branches) for c in loads)
+        ctx.check(okf and loads_in_state, R, 'files-need-flag', fsets[0] if fsets else P, 'load_file is reachable only through reading_filename, which is set only when ALLOW_FILES is given (so without it nothing throws)', 'the file-inclusion state can be entered without ALLOW_FILES')
+        thr = [t for t in walk(pbody) if t.get('kind') == 'CXXThrowExpr']
+        ctx.check(not thr, R, 'no-throw', thr[0] if thr else P, 'the parser contains no throw', 'the parser now throws (%s): any text must be accepted' % (src_text(thr[0], 60) if thr else ''))
 
     # ---- R4 width table
-    R = 'C09-R4'
-    widths = {}
-    for pre, n_hash, exp in (('#', 1, 1), ('#', 2, 2), ('#', 3, 4), ('#', 4, 8), ('%', 1, 4), ('%', 2, 8)):
-        br = next((t for c, t in branches if any(relation(n_, True) and relation(n_, True)[1] == '==' and int_value(relation(n_, True)[2]) == ord(pre) for n_, _ in atoms([Fact(c, True, None)]))), None)
-        ctx.require(br is not None, 'parse_data_string: `%s` branch not found' % pre)
-        # walk: after each `in++` the next char is tested; simulate with in[0] = pre for n_hash tests then a digit
-        seq = [ord(pre)] * n_hash + [ord('1')]
-        fx = new_fx()
-        pos = [0]
+    with ctx.section('C09-R4', 'C09'):
+        R = 'C09-R4'
+        widths = {}
+        for pre, n_hash, exp in (('#', 1, 1), ('#', 2, 2), ('#', 3, 4), ('#', 4, 8), ('%', 1, 4), ('%', 2, 8)):
+            br = next((t for c, t in branches if any(relation(n_, True) and relation(n_, True)[1] == '==' and int_value(relation(n_, True)[2]) == ord(pre) for n_, _ in atoms([Fact(c, True, None)]))), None)
+            ctx.require(br is not None, 'parse_data_string: `%s` branch not found' % pre)
+            # walk: after each `in++` the next char is tested; simulate with in[0] = pre for n_hash tests then a digit
+            seq = [ord(pre)] * n_hash + [ord('1')]
+            fx = new_fx()
+            pos = [0]
 
-        class Ov(dict):
-            pass
-        # evaluate nested ifs: each `in[0] == pre` test refers to the current position; emulate by running statements and updating overrides on advance
+            class Ov(dict):
+                pass
+            # evaluate nested ifs: each `in[0] == pre` test refers to the current position; emulate by running statements and updating overrides on advance
 
-        def run_seq(stmts):
-            for s_ in stmts:
-                s0 = strip(s_)
-                k = s0.get('kind')
-                if k == 'CompoundStmt':
-                    run_seq(list(kids(s0)))
-                elif k == 'IfStmt':
-                    cond, then, els = if_parts(s0)
-                    I.ov = {'in[0]': seq[min(pos[0], len(seq) - 1)], 'in[1]': seq[min(pos[0] + 1, len(seq) - 1)], 'big_endian': 0, 'host_big_endian': 0}
-                    v = I.truth(I.eval(cond, {}))
-                    if v == 1:
-                        run_seq([then])
-                    elif v == 0 and els is not None:
-                        run_seq([els])
-                    elif v not in (0, 1):
-                        fx['unknown'].append(canon(cond))
-                elif k == 'UnaryOperator' and s0.get('opcode') == '++' and canon(s0['inner'][0]) == 'in':
-                    pos[0] += 1
-                    fx['adv'] += 1
-                elif k == 'CallExpr' and call_name(s0) == 'add_mask_bits':
-                    fx['mask'] += int_value(call_args(s0)[2]) or 0
-                elif k == 'CXXMemberCallExpr' and canon(member_call_object(s0)) == 'data' and call_name(s0) == 'append':
-                    a = call_args(s0)
-                    n = int_value(a[1]) if int_value(a[0]) is None else int_value(a[0])
-                    fx['append'].append(n)
-        run_seq([br])
-        tot = sum(x for x in fx['append'] if isinstance(x, int))
-        if any(x.get('kind') in LOOPS + ('SwitchStmt',) for x in walk(br)) and (tot != exp or fx['mask'] != exp or fx['adv'] != n_hash):
-            ctx.undecided(R, 'width|%s' % (pre * n_hash), br, 'the `%s` branch counts its prefix characters with a loop / switch, which the width-table walker does not model' % pre)
-            continue
-        ctx.check(tot == exp and fx['mask'] == exp and fx['adv'] == n_hash and not fx['unknown'], R, 'width|%s' % (pre * n_hash), br, '%s -> %d data bytes, %d mask bytes' % (pre * n_hash, tot, fx['mask']),
-                  '`%s` appends %s data byte(s) and %s mask byte(s) after %s prefix characters; expected %d/%d/%d' % (pre * n_hash, tot, fx['mask'], fx['adv'], exp, exp, n_hash))
-    # every data append is paired with the same number of mask bytes (judged on the
-    # largest blocks whose totals are the same on every completing path)
-    def totals(st):
-        """(data bytes, mask bytes) appended on every normally-completing path, or None"""
-        s0 = strip(st)
-        k = s0.get('kind')
-        if k == 'CompoundStmt':
-            d = m = 0
-            for c in kids(s0):
-                t = totals(c)
-                if t is None:
+            def run_seq(stmts):
+                for s_ in stmts:
+                    s0 = strip(s_)
+                    k = s0.get('kind')
+                    if k == 'CompoundStmt':
+                        run_seq(list(kids(s0)))
+                    elif k == 'IfStmt':
+                        cond, then, els = if_parts(s0)
+                        I.ov = {'in[0]': seq[min(pos[0], len(seq) - 1)], 'in[1]': seq[min(pos[0] + 1, len(seq) - 1)], 'big_endian': 0, 'host_big_endian': 0}
+                        v = I.truth(I.eval(cond, {}))
+                        if v == 1:
+                            run_seq([then])
+                        elif v == 0 and els is not None:
+                            run_seq([els])
+                        elif v not in (0, 1):
+                            fx['unknown'].append(canon(cond))
+                    elif k == 'UnaryOperator' and s0.get('opcode') == '++' and canon(s0['inner'][0]) == 'in':
+                        pos[0] += 1
+                        fx['adv'] += 1
+                    elif k == 'CallExpr' and call_name(s0) == 'add_mask_bits':
+                        fx['mask'] += int_value(call_args(s0)[2]) or 0
+                    elif k == 'CXXMemberCallExpr' and canon(member_call_object(s0)) == 'data' and call_name(s0) == 'append':
+                        a = call_args(s0)
+                        n = int_value(a[1]) if int_value(a[0]) is None else int_value(a[0])
+                        fx['append'].append(n)
+            run_seq([br])
+            tot = sum(x for x in fx['append'] if isinstance(x, int))
+            if any(x.get('kind') in LOOPS + ('SwitchStmt',) for x in walk(br)) and (tot != exp or fx['mask'] != exp or fx['adv'] != n_hash):
+                ctx.undecided(R, 'width|%s' % (pre * n_hash), br, 'the `%s` branch counts its prefix characters with a loop / switch, which the width-table walker does not model' % pre)
+                continue
+            ctx.check(tot == exp and fx['mask'] == exp and fx['adv'] == n_hash and not fx['unknown'], R, 'width|%s' % (pre * n_hash), br, '%s -> %d data bytes, %d mask bytes' % (pre * n_hash, tot, fx['mask']),
+                      '`%s` appends %s data byte(s) and %s mask byte(s) after %s prefix characters; expected %d/%d/%d' % (pre * n_hash, tot, fx['mask'], fx['adv'], exp, exp, n_hash))
+        # every data append is paired with the same number of mask bytes (judged on the
+        # largest blocks whose totals are the same on every completing path)
+        def totals(st):
+            """(data bytes, mask bytes) appended on every normally-completing path, or None"""
+            s0 = strip(st)
+            k = s0.get('kind')
+            if k == 'CompoundStmt':
+                d = m = 0
+                for c in kids(s0):
+                    t = totals(c)
+                    if t is None:
+                        return None
+                    if t == 'exit':
+                        return 'exit' if (d, m) == (0, 0) else (d, m)
+                    d += t[0]
+                    m += t[1]
+                return (d, m)
+            if k == 'IfStmt':
+                cond, then, els = if_parts(s0)
+                ts = [totals(then), totals(els) if els is not None else (0, 0)]
+                if any(t is None for t in ts):
                     return None
-                if t == 'exit':
-                    return 'exit' if (d, m) == (0, 0) else (d, m)
-                d += t[0]
-                m += t[1]
-            return (d, m)
-        if k == 'IfStmt':
-            cond, then, els = if_parts(s0)
-            ts = [totals(then), totals(els) if els is not None else (0, 0)]
-            if any(t is None for t in ts):
-                return None
-            live = [t for t in ts if t != 'exit']
-            if not live:
+                live = [t for t in ts if t != 'exit']
+                if not live:
+                    return 'exit'
+                return live[0] if all(t == live[0] for t in live) else None
+            if k in ('ReturnStmt', 'BreakStmt', 'ContinueStmt', 'CXXThrowExpr'):
                 return 'exit'
-            return live[0] if all(t == live[0] for t in live) else None
-        if k in ('ReturnStmt', 'BreakStmt', 'ContinueStmt', 'CXXThrowExpr'):
-            return 'exit'
-        if k in LOOPS or k == 'SwitchStmt':
-            return None
-        if k == 'CXXMemberCallExpr' and canon(member_call_object(s0)) == 'data' and call_name(s0) == 'append':
-            a_ = call_args(s0)
-            n = int_value(a_[1]) if int_value(a_[0]) is None else int_value(a_[0])
-            return (n, 0) if n is not None else None
-        if k == 'CXXOperatorCallExpr' and call_name(s0) == 'operator+=' and canon(s0['inner'][1]) == 'data':
-            return None if 'load_file' in canon(s0) else (1, 0)
-        if k == 'CXXMemberCallExpr' and canon(member_call_object(s0)) == 'data' and call_name(s0) == 'push_back':
-            return (1, 0)
-        if k == 'CXXMemberCallExpr' and canon(member_call_object(s0)) == 'data' and call_name(s0) not in ('size', 'empty', 'length', 'data', 'c_str', 'reserve'):
-            return None
-        if k == 'CallExpr' and call_name(s0) == 'add_mask_bits':
-            n = int_value(call_args(s0)[2])
-            return (0, n) if n is not None else None
-        return (0, 0)
+            if k in LOOPS or k == 'SwitchStmt':
+                return None
+            if k == 'CXXMemberCallExpr' and canon(member_call_object(s0)) == 'data' and call_name(s0) == 'append':
+                a_ = call_args(s0)
+                n = int_value(a_[1]) if int_value(a_[0]) is None else int_value(a_[0])
+                return (n, 0) if n is not None else None
+            if k == 'CXXOperatorCallExpr' and call_name(s0) == 'operator+=' and canon(s0['inner'][1]) == 'data':
+                return None if 'load_file' in canon(s0) else (1, 0)
+            if k == 'CXXMemberCallExpr' and canon(member_call_object(s0)) == 'data' and call_name(s0) == 'push_back':
+                return (1, 0)
+            if k == 'CXXMemberCallExpr' and canon(member_call_object(s0)) == 'data' and call_name(s0) not in ('size', 'empty', 'length', 'data', 'c_str', 'reserve'):
+                return None
+            if k == 'CallExpr' and call_name(s0) == 'add_mask_bits':
+                n = int_value(call_args(s0)[2])
+                return (0, n) if n is not None else None
+            return (0, 0)
 
-    def judge(st):
-        s0 = strip(st)
-        if not s0.get('kind'):
-            return
-        t = totals(s0)
-        if t is not None and t != 'exit':
-            if t != (0, 0):
-                ctx.check(t[0] == t[1], R, 'pairing@%s:%s' % (s0.get('_line'), s0.get('_col')), s0, '%d data byte(s) / %d mask byte(s)' % t,
-                          'this block appends %d data byte(s) but %d mask byte(s) on a completing path: the masked/unmasked classification of later bytes shifts' % t)
-            return
-        if s0.get('kind') == 'CompoundStmt':
-            for c in kids(s0):
-                judge(c)
-        elif s0.get('kind') == 'IfStmt':
-            cond, then, els = if_parts(s0)
-            judge(then)
-            if els is not None:
-                judge(els)
-    for c_, t_ in branches:
-        judge(t_)
-    judge(else_branch)
-    nyb_if = next((s_ for s_ in stmts_of(loop_body(main_loop)) if s_.get('kind') == 'IfStmt' and (ref_decl(if_parts(s_)[0]) or {}).get('name') == 'read_nybble'), None)
-    if nyb_if is not None:
-        judge(if_parts(nyb_if)[1])
-    swaps = []
-    for x in walk(loop_body(main_loop)):
-        if x.get('kind') == 'IfStmt' and nf(if_parts(x)[0]) in ('(big_endian != host_big_endian)', '(host_big_endian != big_endian)', '(big_endian != 0)', '(0 != big_endian)', 'big_endian'):
-            c = [y for y in walk(if_parts(x)[1]) if y.get('kind') == 'CallExpr' and (call_name(y) or '').startswith('bswap')]
-            blk = enclosing(x, ('CompoundStmt',))
-            sz = [int_value(call_args(s0)[1]) for s0 in [strip(s_) for s_ in kids(blk)] if s0.get('kind') == 'CXXMemberCallExpr' and call_name(s0) == 'append']
-            if c and sz:
-                swaps.append((call_name(c[0]), sz[0]))
-    ctx.check(len(swaps) >= 3 and len({z for _, z in swaps}) >= 3 and all(n_ == 'bswap%d' % (8 * z) for n_, z in swaps), R, 'swap-width', P, 'values are swapped with the bswap of their own width iff big_endian != host', 'swap/width pairs are %s' % swaps)
+        def judge(st):
+            s0 = strip(st)
+            if not s0.get('kind'):
+                return
+            t = totals(s0)
+            if t is not None and t != 'exit':
+                if t != (0, 0):
+                    ctx.check(t[0] == t[1], R, 'pairing@%s:%s' % (s0.get('_line'), s0.get('_col')), s0, '%d data byte(s) / %d mask byte(s)' % t,
+                              'this block appends %d data byte(s) but %d mask byte(s) on a completing path: the masked/unmasked classification of later bytes shifts' % t)
+                return
+            if s0.get('kind') == 'CompoundStmt':
+                for c in kids(s0):
+                    judge(c)
+            elif s0.get('kind') == 'IfStmt':
+                cond, then, els = if_parts(s0)
+                judge(then)
+                if els is not None:
+                    judge(els)
+        for c_, t_ in branches:
+            judge(t_)
+        judge(else_branch)
+        nyb_if = next((s_ for s_ in stmts_of(loop_body(main_loop)) if s_.get('kind') == 'IfStmt' and (ref_decl(if_parts(s_)[0]) or {}).get('name') == 'read_nybble'), None)
+        if nyb_if is not None:
+            judge(if_parts(nyb_if)[1])
+        swaps = []
+        for x in walk(loop_body(main_loop)):
+            if x.get('kind') == 'IfStmt' and nf(if_parts(x)[0]) in ('(big_endian != host_big_endian)', '(host_big_endian != big_endian)', '(big_endian != 0)', '(0 != big_endian)', 'big_endian'):
+                c = [y for y in walk(if_parts(x)[1]) if y.get('kind') == 'CallExpr' and (call_name(y) or '').startswith('bswap')]
+                blk = enclosing(x, ('CompoundStmt',))
+                sz = [int_value(call_args(s0)[1]) for s0 in [strip(s_) for s_ in kids(blk)] if s0.get('kind') == 'CXXMemberCallExpr' and call_name(s0) == 'append']
+                if c and sz:
+                    swaps.append((call_name(c[0]), sz[0]))
+        ctx.check(len(swaps) >= 3 and len({z for _, z in swaps}) >= 3 and all(n_ == 'bswap%d' % (8 * z) for n_, z in swaps), R, 'swap-width', P, 'values are swapped with the bswap of their own width iff big_endian != host', 'swap/width pairs are %s' % swaps)
 
     # ---- R5 hex dump guards
-    R = 'C09-R5'
-    fds = [f for f in u.func('phosg::format_data') if len(params_of(f)) == 7]
-    ctx.require(len(fds) == 1, 'format_data core not found')
-    D = fds[0]
-    ctx.fn('format_data(core)')
-    dbody = body_of(D)
-    conts = [x for x in walk(dbody) if x.get('kind') == 'ContinueStmt']
-    ctx.require(len(conts) == 1, 'format_data: collapse `continue` not found')
-    facts = path_facts(conts[0])
-    rels = set()
-    flags_true = set()
-    zero_tests = 0
-    defs = {v['id']: v for v in walk(dbody) if v.get('kind') == 'VarDecl' and kids(v)}
-    stack = [(n_, p_) for n_, p_ in atoms(facts)]
-    while stack:
-        n_, pol = stack.pop()
-        n0 = strip(n_)
-        rd = ref_decl(n0)
-        if rd and rd.get('id') in defs and dtype(n0) == 'bool' and defs[rd['id']].get('name') not in ('collapse_zero_lines',):
-            stack.extend(atoms([Fact(kids(defs[rd['id']])[-1], pol, None)]))
-            continue
-        if rd and pol:
-            flags_true.add(rd.get('name'))
-        r = relation(n0, pol)
-        if r:
-            rels.add((nf(r[0]), r[1], nf(r[2])))
-        mc = None
-        if n0.get('kind') == 'CallExpr' and call_name(n0) == 'memcmp' and not pol:
-            mc = n0
-        elif r and r[1] == '==' and pol:
-            for p_, q_ in ((r[0], r[2]), (r[2], r[0])):
-                if strip(p_).get('kind') == 'CallExpr' and call_name(strip(p_)) == 'memcmp' and int_value(q_) == 0:
-                    mc = strip(p_)
-        if mc is not None:
-            a = call_args(mc)
-            n_cmp = int_value(a[2])
-            if n_cmp is None:
-                sz_ = next((y for y in walk(a[2]) if y.get('kind') == 'UnaryExprOrTypeTraitExpr' and y.get('name') == 'sizeof' and kids(y)), None)
-                if sz_ is not None:
-                    n_cmp = sizeof_type(dtype(strip(kids(sz_)[0])) or qtype(strip(kids(sz_)[0])))
-            zeros = None
-            if string_lit(a[1]) is not None:
-                zeros = len(string_lit(a[1])) if set(string_lit(a[1])) <= {0} else None
-            else:
-                zd = ref_decl(a[1])
-                zv = next((v for v in walk(dbody) if v.get('kind') == 'VarDecl' and zd is not None and v['id'] == zd.get('id')), None)
-                if zv is None and zd is not None:
-                    zv = next((d_ for d_ in DECLS.get(zd.get('id'), ()) if d_.get('kind') == 'VarDecl' and d_.get('inner')), None)
-                if zv is not None and 'const' in (qtype(zv) or '') and kids(zv):
-                    tot = sizeof_type(qtype(zv))
-                    init = strip(kids(zv)[-1])
-                    elems = [c_ for c_ in kids(init) if c_.get('kind') not in ('ImplicitValueInitExpr',)] if init.get('kind') == 'InitListExpr' else None
-                    arr_filler = init.get('array_filler') if init.get('kind') == 'InitListExpr' else None
-                    els_ = []
-                    if init.get('kind') == 'InitListExpr':
-                        src_ = arr_filler if arr_filler else kids(init)
-                        els_ = [c_ for c_ in src_ if c_.get('kind') != 'ImplicitValueInitExpr']
-                        if all(int_value(c_) == 0 for c_ in els_) and tot:
-                            zeros = tot
-            if n_cmp == 16 and zeros is not None and zeros >= 16:
-                zero_tests += 1
+    with ctx.section('C09-R5', 'C09'):
+        R = 'C09-R5'
+        fds = [f for f in u.func('phosg::format_data') if len(params_of(f)) == 7]
+        ctx.require(len(fds) == 1, 'format_data core not found')
+        D = fds[0]
+        ctx.fn('format_data(core)')
+        dbody = body_of(D)
+        conts = [x for x in walk(dbody) if x.get('kind') == 'ContinueStmt']
+        ctx.require(len(conts) == 1, 'format_data: collapse `continue` not found')
+        facts = path_facts(conts[0])
+        rels = set()
+        flags_true = set()
+        zero_tests = 0
+        defs = {v['id']: v for v in walk(dbody) if v.get('kind') == 'VarDecl' and kids(v)}
+        stack = [(n_, p_) for n_, p_ in atoms(facts)]
+        while stack:
+            n_, pol = stack.pop()
+            n0 = strip(n_)
+            rd = ref_decl(n0)
+            if rd and rd.get('id') in defs and dtype(n0) == 'bool' and defs[rd['id']].get('name') not in ('collapse_zero_lines',):
+                stack.extend(atoms([Fact(kids(defs[rd['id']])[-1], pol, None)]))
+                continue
+            if rd and pol:
+                flags_true.add(rd.get('name'))
+            r = relation(n0, pol)
+            if r:
+                rels.add((nf(r[0]), r[1], nf(r[2])))
+            mc = None
+            if n0.get('kind') == 'CallExpr' and call_name(n0) == 'memcmp' and not pol:
+                mc = n0
+            elif r and r[1] == '==' and pol:
+                for p_, q_ in ((r[0], r[2]), (r[2], r[0])):
+                    if strip(p_).get('kind') == 'CallExpr' and call_name(strip(p_)) == 'memcmp' and int_value(q_) == 0:
+                        mc = strip(p_)
+            if mc is not None:
+                a = call_args(mc)
+                n_cmp = int_value(a[2])
+                if n_cmp is None:
+                    sz_ = next((y for y in walk(a[2]) if y.get('kind') == 'UnaryExprOrTypeTraitExpr' and y.get('name') == 'sizeof' and kids(y)), None)
+                    if sz_ is not None:
+                        n_cmp = sizeof_type(dtype(strip(kids(sz_)[0])) or qtype(strip(kids(sz_)[0])))
+                zeros = None
+                if string_lit(a[1]) is not None:
+                    zeros = len(string_lit(a[1])) if set(string_lit(a[1])) <= {0} else None
+                else:
+                    zd = ref_decl(a[1])
+                    zv = next((v for v in walk(dbody) if v.get('kind') == 'VarDecl' and zd is not None and v['id'] == zd.get('id')), None)
+                    if zv is None and zd is not None:
+                        zv = next((d_ for d_ in DECLS.get(zd.get('id'), ()) if d_.get('kind') == 'VarDecl' and d_.get('inner')), None)
+                    if zv is not None and 'const' in (qtype(zv) or '') and kids(zv):
+                        tot = sizeof_type(qtype(zv))
+                        init = strip(kids(zv)[-1])
+                        elems = [c_ for c_ in kids(init) if c_.get('kind') not in ('ImplicitValueInitExpr',)] if init.get('kind') == 'InitListExpr' else None
+                        arr_filler = init.get('array_filler') if init.get('kind') == 'InitListExpr' else None
+                        els_ = []
+                        if init.get('kind') == 'InitListExpr':
+                            src_ = arr_filler if arr_filler else kids(init)
+                            els_ = [c_ for c_ in src_ if c_.get('kind') != 'ImplicitValueInitExpr']
+                            if all(int_value(c_) == 0 for c_ in els_) and tot:
+                                zeros = tot
+                if n_cmp == 16 and zeros is not None and zeros >= 16:
+                    zero_tests += 1
 
-    def has(a, ops, b):
-        return any((x == a and o in ops and z == b) or (x == b and FLIP[o] in ops and z == a) for x, o, z in rels)
-    ctx.check('collapse_zero_lines' in flags_true, R, 'collapse|flag', conts[0], 'collapsing only with COLLAPSE_ZERO_LINES', 'a line can be collapsed without the flag')
-    ctx.check(has('line_start_address', ('>',), 'start_address'), R, 'collapse|not-first', conts[0], 'never the first line', 'the first line can be collapsed (facts %s)' % sorted(rels))
-    ctx.check(has('line_end_address', ('<',), 'end_address') or has('(16 + line_start_address)', ('<',), 'end_address'), R, 'collapse|not-last', conts[0], 'never the last line (line end strictly before the end address)',
-              'the collapse guard admits line_end_address == end_address (facts %s): when the data ends on a 16-byte boundary its all-zero last line is dropped and the dump reads as a shorter buffer' % sorted(rels))
-    ctx.check(zero_tests == 2, R, 'collapse|both-zero', conts[0], 'current and previous line are compared with 16 zero bytes', 'only %d all-zero test(s) guard the collapse' % zero_tests)
-    advs = [x for x in walk(dbody) if x.get('kind') == 'UnaryOperator' and x.get('opcode') == '++' and canon(x['inner'][0]) in ('current_iov_index', 'prev_iov_index')]
-    okw = len(advs) == 2 and all(enclosing(a, ('WhileStmt', 'IfStmt')) is not None and enclosing(a, ('WhileStmt', 'IfStmt')).get('kind') == 'WhileStmt' for a in advs)
-    if okw:
-        for a in advs:
-            wl = enclosing(a, ('WhileStmt',))
+        def has(a, ops, b):
+            return any((x == a and o in ops and z == b) or (x == b and FLIP[o] in ops and z == a) for x, o, z in rels)
+        ctx.check('collapse_zero_lines' in flags_true, R, 'collapse|flag', conts[0], 'collapsing only with COLLAPSE_ZERO_LINES', 'a line can be collapsed without the flag')
+        ctx.check(has('line_start_address', ('>',), 'start_address'), R, 'collapse|not-first', conts[0], 'never the first line', 'the first line can be collapsed (facts %s)' % sorted(rels))
+        ctx.check(has('line_end_address', ('<',), 'end_address') or has('(16 + line_start_address)', ('<',), 'end_address'), R, 'collapse|not-last', conts[0], 'never the last line (line end strictly before the end address)',
+                  'the collapse guard admits line_end_address == end_address (facts %s): when the data ends on a 16-byte boundary its all-zero last line is dropped and the dump reads as a shorter buffer' % sorted(rels))
+        ctx.check(zero_tests == 2, R, 'collapse|both-zero', conts[0], 'current and previous line are compared with 16 zero bytes', 'only %d all-zero test(s) guard the collapse' % zero_tests)
+        advs = [x for x in walk(dbody) if x.get('kind') == 'UnaryOperator' and x.get('opcode') == '++' and canon(x['inner'][0]) in ('current_iov_index', 'prev_iov_index')]
+        okw = len(advs) == 2 and all(enclosing(a, ('WhileStmt', 'IfStmt')) is not None and enclosing(a, ('WhileStmt', 'IfStmt')).get('kind') == 'WhileStmt' for a in advs)
+        if okw:
+            for a in advs:
+                wl = enclosing(a, ('WhileStmt',))
+                r = relation(while_parts(wl)[0], True)
+                okw = okw and r is not None and r[1] == '>=' and 'iov_len' in canon(r[2])
+        cursors_here = len(advs) == 2
+        if cursors_here:
+            ctx.check(okw, R, 'iovec-cursor|while', advs[0] if advs else D, 'exhausted (or empty) iovecs are skipped with `while (bytes >= iov_len)`', 'iovec cursors do not skip consecutive empty iovecs: the output depends on how the data is split')
+        else:
+            ctx.undecided(R, 'iovec-cursor|while', D, 'the two iovec cursors (current_iov_index / prev_iov_index) are not advanced in format_data itself (moved into a helper or class): cursor rules not evaluated')
+        # cursor / array affinity: each iovec array is walked by its own (index, byte offset) pair; the
+        # line buffers are filled from the matching array
+        iov_params = [p_ for p_ in params_of(D) if 'iovec' in (qtype(p_) or '')] if cursors_here else []
+        ctx.require(len(iov_params) == 2 or not cursors_here, 'format_data: the two iovec array parameters were not found')
+        use = {}
+        for x in walk(dbody):
+            if x.get('kind') == 'ArraySubscriptExpr':
+                base = ref_decl(x['inner'][0])
+                if base and base.get('id') in {p_['id'] for p_ in iov_params}:
+                    idxs = sorted({(ref_decl(y) or {}).get('name') for y in walk(x['inner'][1]) if y.get('kind') == 'DeclRefExpr' and (ref_decl(y) or {}).get('kind') == 'VarDecl'})
+                    # the byte cursor compared with / added to this element in the same statement
+                    st_ = containing_statement(x)
+                    use.setdefault(base.get('name'), []).append((tuple(idxs), x))
+        cursors = {}
+        for arr, lst in use.items():
+            for idxs, x in lst:
+                for i in idxs:
+                    cursors.setdefault(i, set()).add(arr)
+        persistent = {canon(a['inner'][0]) for a in advs}
+        ctx.require(len(persistent & set(cursors)) == 2 or not cursors_here, 'format_data: the two persistent iovec cursors were not found')
+        for cvar, arrs in sorted(cursors.items()):
+            if cvar not in persistent:
+                continue   # plain loop counters (e.g. summing the lengths) may visit both arrays
+            bad_x = next((x for arr in arrs for idxs, x in use[arr] if cvar in idxs), None)
+            ctx.check(len(arrs) == 1, R, 'iovec-cursor|single-array|' + str(cvar), bad_x or D, 'cursor %s walks %s only' % (cvar, sorted(arrs)), 'cursor `%s` indexes both %s' % (cvar, sorted(arrs)))
+        # within one statement an element of array A is combined only with A's own byte cursor
+        byte_cur = {}
+        for wl in [x for x in walk(dbody) if x.get('kind') == 'WhileStmt']:
             r = relation(while_parts(wl)[0], True)
-            okw = okw and r is not None and r[1] == '>=' and 'iov_len' in canon(r[2])
-    cursors_here = len(advs) == 2
-    if cursors_here:
-        ctx.check(okw, R, 'iovec-cursor|while', advs[0] if advs else D, 'exhausted (or empty) iovecs are skipped with `while (bytes >= iov_len)`', 'iovec cursors do not skip consecutive empty iovecs: the output depends on how the data is split')
-    else:
-        ctx.undecided(R, 'iovec-cursor|while', D, 'the two iovec cursors (current_iov_index / prev_iov_index) are not advanced in format_data itself (moved into a helper or class): cursor rules not evaluated')
-    # cursor / array affinity: each iovec array is walked by its own (index, byte offset) pair; the
-    # line buffers are filled from the matching array
-    iov_params = [p_ for p_ in params_of(D) if 'iovec' in (qtype(p_) or '')] if cursors_here else []
-    ctx.require(len(iov_params) == 2 or not cursors_here, 'format_data: the two iovec array parameters were not found')
-    use = {}
-    for x in walk(dbody):
-        if x.get('kind') == 'ArraySubscriptExpr':
-            base = ref_decl(x['inner'][0])
-            if base and base.get('id') in {p_['id'] for p_ in iov_params}:
-                idxs = sorted({(ref_decl(y) or {}).get('name') for y in walk(x['inner'][1]) if y.get('kind') == 'DeclRefExpr' and (ref_decl(y) or {}).get('kind') == 'VarDecl'})
-                # the byte cursor compared with / added to this element in the same statement
+            if r and r[1] == '>=' and 'iov_len' in canon(r[2]) and ref_decl(r[0]):
+                arr = next(((ref_decl(y['inner'][0]) or {}).get('name') for y in walk(r[2]) if y.get('kind') == 'ArraySubscriptExpr'), None)
+                if arr:
+                    byte_cur[ref_decl(r[0]).get('name')] = arr
+        for x in walk(dbody):
+            if x.get('kind') == 'ArraySubscriptExpr' and (ref_decl(x['inner'][0]) or {}).get('name') in use:
+                arr = ref_decl(x['inner'][0]).get('name')
                 st_ = containing_statement(x)
-                use.setdefault(base.get('name'), []).append((tuple(idxs), x))
-    cursors = {}
-    for arr, lst in use.items():
-        for idxs, x in lst:
-            for i in idxs:
-                cursors.setdefault(i, set()).add(arr)
-    persistent = {canon(a['inner'][0]) for a in advs}
-    ctx.require(len(persistent & set(cursors)) == 2 or not cursors_here, 'format_data: the two persistent iovec cursors were not found')
-    for cvar, arrs in sorted(cursors.items()):
-        if cvar not in persistent:
-            continue   # plain loop counters (e.g. summing the lengths) may visit both arrays
-        bad_x = next((x for arr in arrs for idxs, x in use[arr] if cvar in idxs), None)
-        ctx.check(len(arrs) == 1, R, 'iovec-cursor|single-array|' + str(cvar), bad_x or D, 'cursor %s walks %s only' % (cvar, sorted(arrs)), 'cursor `%s` indexes both %s' % (cvar, sorted(arrs)))
-    # within one statement an element of array A is combined only with A's own byte cursor
-    byte_cur = {}
-    for wl in [x for x in walk(dbody) if x.get('kind') == 'WhileStmt']:
-        r = relation(while_parts(wl)[0], True)
-        if r and r[1] == '>=' and 'iov_len' in canon(r[2]) and ref_decl(r[0]):
-            arr = next(((ref_decl(y['inner'][0]) or {}).get('name') for y in walk(r[2]) if y.get('kind') == 'ArraySubscriptExpr'), None)
-            if arr:
-                byte_cur[ref_decl(r[0]).get('name')] = arr
-    for x in walk(dbody):
-        if x.get('kind') == 'ArraySubscriptExpr' and (ref_decl(x['inner'][0]) or {}).get('name') in use:
-            arr = ref_decl(x['inner'][0]).get('name')
-            st_ = containing_statement(x)
-            if st_ is None or st_.get('kind') in ('WhileStmt', 'ForStmt', 'IfStmt', 'CompoundStmt'):
-                continue
-            others = {(ref_decl(y) or {}).get('name') for y in walk(st_) if y.get('kind') == 'DeclRefExpr'} & set(byte_cur)
-            wrong = [o for o in others if byte_cur[o] != arr]
-            if others:
-                ctx.check(not wrong, R, 'iovec-cursor|byte-offset|%s@%s' % (arr, st_.get('_line')), x, '%s element used with its own byte cursor' % arr, '%s[] element combined with the byte cursor %s of the other buffer' % (arr, wrong))
-    hexf = [string_lit(call_args(c)[0]) for c in walk(dbody) if c.get('kind') == 'CallExpr' and call_name(c) == 'string_printf' and string_lit(call_args(c)[0]) in (b' %02hhX', b' %02X')]
-    ctx.check(len(hexf) == 1, R, 'hex-column', D, 'each byte is printed as " %02X"', 'hex column format changed')
-    asc = [x for x in walk(dbody) if x.get('kind') == 'IfStmt' and nf(if_parts(x)[0]) in ('((current_value < 32) || (127 <= current_value))', '((current_value < 32) || (current_value >= 127))')]
-    ctx.check(len(asc) == 1, R, 'ascii-column', D, 'bytes outside 0x20..0x7E are shown as a blank', 'ASCII column predicate changed')
-    # pointer/count pairing in the forwarding overloads: a count handed over next to X.data() is
-    # X.size() of the same container (a count taken from the other buffer walks off the shorter one)
-    import re as _re
-    from guard import subst_locals
-    n_pairs = 0
-    for f in u.functions:
-        if f.get('name') not in ('format_data', 'print_data') or body_of(f) is None:
-            continue
-        for c in walk(body_of(f)):
-            if c.get('kind') != 'CallExpr' or call_name(c) not in ('format_data', 'print_data'):
-                continue
-            a = call_args(c)
-            for i_ in range(len(a) - 1):
-                ptr = subst_locals(canon(a[i_]), c)
-                holders = set(_re.findall(r'([A-Za-z_][\w.]*?)\.data\(\)', ptr))
-                if not holders or 'vector' not in ''.join(dtype(member_call_object(x)) or '' for x in walk_deep(a[i_], u) if x.get('kind') == 'CXXMemberCallExpr' and call_name(x) == 'data') + ''.join((dtype(member_call_object(x)) or '') for v_ in walk(body_of(f)) if v_.get('kind') == 'VarDecl' and v_.get('name') and v_['name'] in canon(a[i_]) for x in walk(v_) if x.get('kind') == 'CXXMemberCallExpr' and call_name(x) == 'data'):
+                if st_ is None or st_.get('kind') in ('WhileStmt', 'ForStmt', 'IfStmt', 'CompoundStmt'):
                     continue
-                cnt = subst_locals(canon(a[i_ + 1]), c)
-                sizes = set(_re.findall(r'([A-Za-z_][\w.]*?)\.size\(\)', cnt))
-                n_pairs += 1
-                ctx.check(sizes == holders, R, 'pairing|%s@%s|arg%d' % (f.get('name'), c.get('_line'), i_), c, 'count %s belongs to %s' % (cnt, ptr),
-                          'the element count passed next to %s is %s: it is not the size of that container, so the callee walks %s with the length of another buffer' % (ptr, cnt, sorted(holders)))
-    ctx.require(n_pairs >= 2, 'format_data/print_data forwarding overloads: no (data(), size()) argument pairs found')
+                others = {(ref_decl(y) or {}).get('name') for y in walk(st_) if y.get('kind') == 'DeclRefExpr'} & set(byte_cur)
+                wrong = [o for o in others if byte_cur[o] != arr]
+                if others:
+                    ctx.check(not wrong, R, 'iovec-cursor|byte-offset|%s@%s' % (arr, st_.get('_line')), x, '%s element used with its own byte cursor' % arr, '%s[] element combined with the byte cursor %s of the other buffer' % (arr, wrong))
+        hexf = [string_lit(call_args(c)[0]) for c in walk(dbody) if c.get('kind') == 'CallExpr' and call_name(c) == 'string_printf' and string_lit(call_args(c)[0]) in (b' %02hhX', b' %02X')]
+        ctx.check(len(hexf) == 1, R, 'hex-column', D, 'each byte is printed as " %02X"', 'hex column format changed')
+        asc = [x for x in walk(dbody) if x.get('kind') == 'IfStmt' and nf(if_parts(x)[0]) in ('((current_value < 32) || (127 <= current_value))', '((current_value < 32) || (current_value >= 127))')]
+        ctx.check(len(asc) == 1, R, 'ascii-column', D, 'bytes outside 0x20..0x7E are shown as a blank', 'ASCII column predicate changed')
+        # pointer/count pairing in the forwarding overloads: a count handed over next to X.data() is
+        # X.size() of the same container (a count taken from the other buffer walks off the shorter one)
+        import re as _re
+        from guard import subst_locals
+        n_pairs = 0
+        for f in u.functions:
+            if f.get('name') not in ('format_data', 'print_data') or body_of(f) is None:
+                continue
+            for c in walk(body_of(f)):
+                if c.get('kind') != 'CallExpr' or call_name(c) not in ('format_data', 'print_data'):
+                    continue
+                a = call_args(c)
+                for i_ in range(len(a) - 1):
+                    ptr = subst_locals(canon(a[i_]), c)
+                    holders = set(_re.findall(r'([A-Za-z_][\w.]*?)\.data\(\)', ptr))
+                    if not holders or 'vector' not in ''.join(dtype(member_call_object(x)) or '' for x in walk_deep(a[i_], u) if x.get('kind') == 'CXXMemberCallExpr' and call_name(x) == 'data') + ''.join((dtype(member_call_object(x)) or '') for v_ in walk(body_of(f)) if v_.get('kind') == 'VarDecl' and v_.get('name') and v_['name'] in canon(a[i_]) for x in walk(v_) if x.get('kind') == 'CXXMemberCallExpr' and call_name(x) == 'data'):
+                        continue
+                    cnt = subst_locals(canon(a[i_ + 1]), c)
+                    sizes = set(_re.findall(r'([A-Za-z_][\w.]*?)\.size\(\)', cnt))
+                    n_pairs += 1
+                    ctx.check(sizes == holders, R, 'pairing|%s@%s|arg%d' % (f.get('name'), c.get('_line'), i_), c, 'count %s belongs to %s' % (cnt, ptr),
+                              'the element count passed next to %s is %s: it is not the size of that container, so the callee walks %s with the length of another buffer' % (ptr, cnt, sorted(holders)))
+        ctx.require(n_pairs >= 2, 'format_data/print_data forwarding overloads: no (data(), size()) argument pairs found')
     ctx.note('R1 is exhaustive over the bytes admitted by the printable predicate (%d of 256).' % len(admitted))
